@@ -66,6 +66,7 @@ type jFuncLookup struct {
 type jComment struct {
 	Pos  string `json:"pos"`
 	Text string `json:"text"`
+	Off  int    `json:"off"` // byte offset of the comment in the setup file
 }
 
 type jParam struct {
@@ -89,6 +90,8 @@ type jScopeObj struct {
 	InSetupFile bool          `json:"inSetupFile"`
 	DocChain    []int         `json:"docChain"`
 	Methods     []jMethodDecl `json:"methods"`
+	LBrace      int           `json:"lbrace"` // byte offsets of the interface's method list braces
+	RBrace      int           `json:"rbrace"`
 }
 
 type jFile struct {
@@ -120,6 +123,7 @@ type Facts struct {
 	Types         []jTy       `json:"types"`
 	Assignable    []string    `json:"assignable"`
 	Convertible   []string    `json:"convertible"`
+	Identical     []string    `json:"identical"`
 	Lookups       []jLookupE  `json:"lookups"`
 	ScopeNames    []string    `json:"scopeNames"`
 	StringTy      int         `json:"stringTy"`
@@ -261,7 +265,7 @@ func ExtractFacts(srcPath, dstPath, rel string) (*Facts, error) {
 		groupIdx[g] = i
 		var lines []jComment
 		for _, c := range g.List {
-			lines = append(lines, jComment{Pos: posStr(c.Pos()), Text: c.Text})
+			lines = append(lines, jComment{Pos: posStr(c.Pos()), Text: c.Text, Off: fset.Position(c.Pos()).Offset})
 			if m := reNotationH.FindStringSubmatch(c.Text); m != nil {
 				args := strings.Fields(m[2])
 				if m[1] == "skip" && len(args) > 0 {
@@ -320,12 +324,27 @@ func ExtractFacts(srcPath, dstPath, rel string) (*Facts, error) {
 		}
 		return true
 	})
+	// doc-bearing nodes on the path, innermost first; the kind is encoded in the id:
+	// id*8 + kind  (1 GenDecl, 2 FuncDecl, 3 TypeSpec, 4 Field, 5 File)
 	docChain := func(obj types.Object) []int {
 		chain := []int{}
 		nodes, _ := astutil.PathEnclosingInterval(fileSrc, obj.Pos(), obj.Pos())
 		for _, n := range nodes {
 			if i, ok := nodeIdx[n]; ok {
-				chain = append(chain, i)
+				kind := 0
+				switch n.(type) {
+				case *ast.GenDecl:
+					kind = 1
+				case *ast.FuncDecl:
+					kind = 2
+				case *ast.TypeSpec:
+					kind = 3
+				case *ast.Field:
+					kind = 4
+				case *ast.File:
+					kind = 5
+				}
+				chain = append(chain, i*8+kind)
 			}
 		}
 		return chain
@@ -351,6 +370,30 @@ func ExtractFacts(srcPath, dstPath, rel string) (*Facts, error) {
 			so.IsInterface = true
 			if so.InSetupFile {
 				so.DocChain = docChain(obj)
+				// braces as GenerateBaseCode finds them: the first field list of the declaration
+				if nodes, _ := astutil.PathEnclosingInterval(fileSrc, obj.Pos(), obj.Pos()); nodes != nil {
+					for _, n := range nodes {
+						if gd, ok := n.(*ast.GenDecl); ok {
+							minPos, maxPos := token.NoPos, token.NoPos
+							ast.Inspect(gd, func(node ast.Node) bool {
+								if fl, ok := node.(*ast.FieldList); ok {
+									if minPos == 0 {
+										minPos, maxPos = fl.Pos(), fl.Closing
+									} else if fl.Pos() < minPos {
+										minPos = fl.Pos()
+									} else if maxPos < fl.Closing {
+										maxPos = fl.Closing
+									}
+								}
+								return true
+							})
+							if minPos.IsValid() {
+								so.LBrace = fset.Position(minPos).Offset
+								so.RBrace = fset.Position(maxPos).Offset
+							}
+						}
+					}
+				}
 				mset := types.NewMethodSet(iface)
 				for i := 0; i < mset.Len(); i++ {
 					m := mset.At(i).Obj()
@@ -524,7 +567,7 @@ func ExtractFacts(srcPath, dstPath, rel string) (*Facts, error) {
 	}
 	n := len(f.Types)
 	for i := 0; i < n; i++ {
-		var a, c strings.Builder
+		var a, c, idn strings.Builder
 		for k := 0; k < n; k++ {
 			if types.AssignableTo(u.types[i], u.types[k]) {
 				a.WriteByte('1')
@@ -536,9 +579,15 @@ func ExtractFacts(srcPath, dstPath, rel string) (*Facts, error) {
 			} else {
 				c.WriteByte('0')
 			}
+			if types.Identical(u.types[i], u.types[k]) {
+				idn.WriteByte('1')
+			} else {
+				idn.WriteByte('0')
+			}
 		}
 		f.Assignable = append(f.Assignable, a.String())
 		f.Convertible = append(f.Convertible, c.String())
+		f.Identical = append(f.Identical, idn.String())
 	}
 
 	// ---- regexp oracle -------------------------------------------------------------------------
